@@ -3,3 +3,7 @@ use crate::Ctx;
 pub fn run(_ctx: &Ctx, _second: bool) -> Vec<Eng> {
     vec![]
 }
+
+pub fn run_time_mode(_ctx: &Ctx) -> Vec<Eng> {
+    vec![]
+}
